@@ -19,7 +19,7 @@ class C17Run(E2Run):
     prop = "C17"
 
     def profile(self) -> Dict:
-        return {"topologies": ["lan", "lan", "routed"], "max_hosts_per_subnet": 3, "tight_links": 0.0, "random_acl_rules": (0, 0), "permit_all_rule": 1.0, "durations": [1, 2], "avoid": ["listen_on_ports", "routing_loop"], "initial_files": 0.2}
+        return {"topologies": ["lan", "lan", "routed"], "max_hosts_per_subnet": 3, "tight_links": 0.0, "random_acl_rules": (0, 0), "permit_all_rule": 1.0, "durations": [1, 2], "avoid": ["listen_on_ports"], "initial_files": 0.2}
 
     def tweak_scenario(self):
         """Every host gets a database-client (so there are several clients); the roles stay as generated."""
